@@ -266,6 +266,16 @@ func (w *World) runOnce(c *Case, dir string, res *Result) (retry bool) {
 			return
 		}
 		ready = true
+		// the port may have been taken by somebody else's listener since it was reserved (then that one
+		// answered): the manager says so
+		time.Sleep(2 * time.Millisecond)
+		if r.Failed() {
+			res.StartErr = fmt.Sprintf("manager failed to start: %v", r.LogTail(3))
+			if strings.Contains(res.StartErr, "address already in use") {
+				return true
+			}
+			return
+		}
 	}
 	if !ready {
 		// UDP only: no cheap readiness signal, the first round trips are retried
@@ -323,6 +333,10 @@ func (w *World) runOnce(c *Case, dir string, res *Result) (retry bool) {
 	}
 	if r.Failed() {
 		res.StartErr = fmt.Sprintf("manager stopped by itself: %v", r.LogTail(3))
+		if strings.Contains(res.StartErr, "address already in use") {
+			// it never ran: a listener port was taken by another process; nothing above was about this manager
+			return true
+		}
 	}
 	stop()
 	return
@@ -446,6 +460,11 @@ func (w *World) startNear(c *Case, env *Env, dir string) (*Running, error) {
 		}
 	} else {
 		time.Sleep(30 * time.Millisecond)
+	}
+	if r.Failed() {
+		err := fmt.Errorf("manager failed to start: %v", r.LogTail(3))
+		r.Stop(5 * time.Second)
+		return nil, err
 	}
 	return r, nil
 }
